@@ -137,6 +137,9 @@ reg("jax:morph_representative_directions", "jax", MORPH_RD_PARAMS, fun="morph_re
 # a user-defined energy with state variables handed to jax.Hyperelastic (documented nstatevars argument): the OLD state enters
 # the energy as a parameter, the new state is a function of C
 reg("jax:hyperelastic(user energy with state)", "jax", st.fixed_dictionaries({"mu": fl(0.2, 5)}), fun="user_state", nstate=2, energy=True, tol_fd=2e-6)
+# a user-defined ANISOTROPIC energy (one fibre family along e1: invariant C_11) handed to jax.Hyperelastic: "a function of the right
+# Cauchy-Green deformation tensor" - an energy that tells F^T F from F F^T; its value is known to the oracle in closed form
+reg("jax:hyperelastic(user fibre energy)", "jax", st.fixed_dictionaries({"mu": fl(0.2, 5), "kf": fl(0.1, 3)}), fun="user_fibre", energy=True, iso=False, tol_fd=2e-6)
 reg("jax:total_lagrange(neo_hooke)", "jax", st.fixed_dictionaries({"mu": fl(0.2, 5)}), fun="total_lagrange")
 reg("jax:updated_lagrange(neo_hooke)", "jax", st.fixed_dictionaries({"mu": fl(0.2, 5)}), fun="updated_lagrange")
 
@@ -273,6 +276,12 @@ def _build(name, params):
                 return W, jnp.array([I1 - 3, jnp.trace(C) - 3])
 
             return jx.Hyperelastic(w_state, nstatevars=2, **p)
+        if f == "user_fibre":
+            def w_fibre(C, mu=1.0, kf=1.0):
+                J = jnp.sqrt(jnp.linalg.det(C))
+                return mu / 2 * (jnp.trace(C) - 3 - 2 * jnp.log(J)) + 2.0 * mu * (J - 1) ** 2 + kf * (C[0, 0] - 1) ** 2 + 0.5 * kf * C[0, 1] ** 2
+
+            return jx.Hyperelastic(w_fibre, **p)
         if f == "total_lagrange":
             @jx.total_lagrange
             def nh_tl(F, mu=1):
@@ -319,6 +328,10 @@ def energy(name, params, F, sv=None):
 
         kw = dict(um.kwargs)
         return np.asarray(tr.function(um.fun, wrt=0, ntrax=len(F.shape) - 2)(C, **kw))
+    if e.get("fun") == "user_fibre":
+        # closed form, independent of the library's wrapper around the user function
+        J = np.linalg.det(np.moveaxis(F, (0, 1), (-2, -1)))
+        return p["mu"] / 2 * (C[0, 0] + C[1, 1] + C[2, 2] - 3 - 2 * np.log(J)) + 2.0 * p["mu"] * (J - 1) ** 2 + p["kf"] * (C[0, 0] - 1) ** 2 + 0.5 * p["kf"] * C[0, 1] ** 2
     import jax.numpy as jnp
 
     out = np.zeros(F.shape[2:])
